@@ -126,7 +126,7 @@ func vNewUDPConn(fc *vClient) *UDPConn {
 }
 
 func vNewUDPConn0(fc *vClient) *UDPConn {
-	return &UDPConn{
+	c := &UDPConn{
 		bindingMgr:             newBindingManager(),
 		readCh:                 make(chan *inboundData, maxReadQueueSize),
 		closeCh:                make(chan struct{}),
@@ -142,6 +142,11 @@ func vNewUDPConn0(fc *vClient) *UDPConn {
 			log:         &vLog{},
 		},
 	}
+	// the client's own tables are touched only under their own mutexes
+	vGuard(c.permMap.permMap, &c.permMap.mutex, "C18.client_permission_map_guarded_by_its_mutex")
+	vGuard(c.bindingMgr.chanMap, &c.bindingMgr.mutex, "C18.client_binding_maps_guarded_by_their_mutex")
+	vGuard(c.bindingMgr.addrMap, &c.bindingMgr.mutex, "C18.client_binding_maps_guarded_by_their_mutex")
+	return c
 }
 
 // data-bearing messages in the log: Send indications and ChannelData
